@@ -475,7 +475,23 @@ def r05_5(ctx):
     for f in ms:
         writes = [(b, t) for b, t in f.calls() if t["callee"].rsplit("::", 1)[-1] in WRITERS and "Formatter" in (t.get("trait") or t["callee"])]
         if not writes:
-            ctx.ob("R05.5", f"{f.name}", True, f.loc(), "no scalar is written directly (error, or delegation to the string serializer / the value's own Serialize)", nontrivial=False)
+            # delegation: only to the string serializer of the main serializer, to this key serializer again
+            # (value.serialize(self)), or to nothing (an error)
+            bad = []
+            for b, t in f.calls():
+                nm = t["callee"].rsplit("::", 1)[-1]
+                if nm.startswith("serialize_") and (t.get("trait") or "").endswith("ser::Serializer"):
+                    recv_ty = t["argtys"][0] if t.get("argtys") else ""
+                    if "MapKeySerializer" in recv_ty:
+                        continue
+                    if nm not in ("serialize_str",):
+                        bad.append(f"{nm} on {recv_ty[:40]}")
+                if nm == "collect_str" and "MapKeySerializer" not in (t["argtys"][0] if t.get("argtys") else ""):
+                    # collect_str of the main serializer writes a quoted string
+                    continue
+            ctx.ob("R05.5", f"{f.name}", not bad, f.loc(),
+                   "no scalar is written directly: error, the value's own Serialize with this key serializer, or the main serializer's serialize_str" if not bad else
+                   f"the key is handed to the main serializer's {bad}: a non-string key is written without quotes", nontrivial=bool(bad) or any(t["callee"].rsplit("::", 1)[-1].startswith("serialize") for b, t in f.calls()))
             continue
         bs = {b for b, t in f.calls() if t["callee"].rsplit("::", 1)[-1] == "begin_string"}
         es = {b for b, t in f.calls() if t["callee"].rsplit("::", 1)[-1] == "end_string"}
